@@ -19,9 +19,12 @@ def family(case, mn, py, spec, fields):
         return "counted_internal_memory_run_does_not_wrap_at_256"
     if mn in ("ADC", "SBC", "ADCL", "SBCL"):
         return "carry_in_added_to_operand_at_operand_width"
-    if mn in ("DSLL", "DSRL"):
+    regs = case[2]
+    bs = bytes.fromhex(case[0])
+    ob = bs[1:] if prefixed else bs
+    if mn in ("DSLL", "DSRL") and regs.get("I", 0) >= 2:
         return "decimal_shift_takes_carry_digit_from_the_byte_it_just_stored"
-    if mn == "EXL":
+    if mn == "EXL" and regs.get("I", 0) >= 2:
         return "EXL_exchanges_the_same_cell_I_times"
     if any(cpu.IMEM + 0xEC <= a <= cpu.IMEM + 0xEE for a in set(py["w"]) | spec_touched):
         return "instruction_overwrites_BP_PX_PY_it_addresses_with"
@@ -29,9 +32,10 @@ def family(case, mn, py, spec, fields):
         return "exchange_ignores_PRE_addressing"
     if mn in ("MVL", "MVLD") and prefixed:
         return "block_move_takes_PRE_mode_from_the_wrong_slot"
-    if mn in ("MV", "MVW", "MVP") and key in ("b4", "b5", "b6", "b7", "Pb4", "Pb5", "Pb6", "Pb7"):
+    k = key.lstrip("P")
+    if mn in ("MV", "MVW", "MVP") and k in ("b4", "b5", "b6", "b7") and len(ob) > 1 and (ob[1] >> 4) in (2, 3) and (ob[1] & 7) == int(k[1]):
         return "store_of_pointer_register_through_itself_sees_the_updated_pointer"
-    if mn == "RET":
+    if mn == "RET" and (case[1] + len(bs)) >> 16 != case[1] >> 16:
         return "RET_page_taken_from_next_instruction_address"
     if mn == "JP" and key == "P10":
         return "JP_imem_ignores_PRE_addressing"
